@@ -21,7 +21,7 @@ func init() {
 			"(d) the winner is replaced only under score != 0 and (no winner or score > winner's score), Providers is then replaced by the single provider of that response, appended only under bidsEqual, and every counted response is recorded in Participation; " +
 			"(e) the winner is updated only from the collector loops, each bounded by the strategy's deadline context; (f) the block relay caches the winning bid only under a non-nil winner and serves a cached bid only when its value is positive; " +
 			"(g) a relay is listed for unblinding only if its client can supply bids (and, in 'best', unblind); (h) the result of a failed client lookup is not used. " +
-			"Added with the third seeding round: (e, extended) the deadline strategy's cut-off is StartOfSlot(slot) + the configured deadline. Added with the fifth seeding round: (j) the provider a relay worker queries was obtained for the relay whose settings the worker is given; (y) the relay client cache rule C11.i and the nil-deref rule C16.i are taken over for the auction's packages. Added with the sixth seeding round and the false-alarm regression: (k) the context under which the relay requests are issued is not cancelled before the last collector; (f, a) judged per value that can reach a merged return or send. Added with the seventh seeding round: (d, extended) what is compared with the winner's recorded Score is the Score recorded for this response; (f, extended) every path after a successful auction hands its outcome to the caching function. Added with the eighth seeding round: (m) the fields of a BuilderConfig literal built entry by entry in main.go do not depend on a variable carried round the loop; (y) C10.n is taken over. NOT decided: that the highest score among all timely bids wins (needs arrival orders), value arithmetic, relay honesty.",
+			"Added with the third seeding round: (e, extended) the deadline strategy's cut-off is StartOfSlot(slot) + the configured deadline. Added with the fifth seeding round: (j) the provider a relay worker queries was obtained for the relay whose settings the worker is given; (y) the relay client cache rule C11.i and the nil-deref rule C16.i are taken over for the auction's packages. Added with the sixth seeding round and the false-alarm regression: (k) the context under which the relay requests are issued is not cancelled before the last collector; (f, a) judged per value that can reach a merged return or send. Added with the seventh seeding round: (d, extended) what is compared with the winner's recorded Score is the Score recorded for this response; (f, extended) every path after a successful auction hands its outcome to the caching function. Added with the eighth seeding round: (m) the fields of a BuilderConfig literal built entry by entry in main.go do not depend on a variable carried round the loop; (y) C10.n is taken over. Added with the tenth seeding round: (c, extended) a score accumulated in place in a number the function owns is followed through the calls whose destination it is. NOT decided: that the highest score among all timely bids wins (needs arrival orders), value arithmetic, relay honesty.",
 		Technique: "SSA guard/edge-deletion queries with relation sets and guard-helper summaries (error-nilness), provenance of verifier inputs and score operands, who-may-call on the winner update, use-after-failed-call analysis",
 		Rule:      "obligations (a)-(e),(g),(h) per strategy package; (f) for services/blockrelay/standard",
 	})
